@@ -480,7 +480,14 @@ def run(prop: str, tier: str) -> int:
         raise tlc.MachineryError(f"reachability probes not all hit: {hit}")
     v.phase("model_check")
     n = 300 if tier == "quick" else 8000
-    traces = [random_trace(r, r.randint(10, 40 if tier == "quick" else 60)) for _ in range(n)]
+    # a first small batch is validated at once: a client that mirrors wrongly shows it immediately, and a defect that makes the full
+    # run very slow (e.g. receive buffers that are never emptied) is reported instead of running into the time limit
+    traces = [random_trace(r, r.randint(10, 40)) for _ in range(30)]
+    erej, _, _ = tlc.validate_traces("TraceClientMirror", f"TraceClientMirror_{prop}.cfg", traces, shards=4)
+    if not erej:
+        traces += [random_trace(r, r.randint(10, 40 if tier == "quick" else 60)) for _ in range(n - 30)]
+    else:
+        v.notes["early_batch_only"] = True
     for ti, t in enumerate(traces):
         for i, e in enumerate(t):
             v.evaluations += 1
